@@ -22,10 +22,10 @@ RECOMPUTE_BIN = [None]
 HEAVY = {"bigcrash": 3}
 # monitors-only probes: the model comparison is not meaningful (tamperfull: the pinned x/mod reader
 # accepts a tile the model's verifying reader refuses; storm: the schedule of concurrent submitters
-# is not recorded; sharedissuer: two submitters of one new issuer reach the pool in either order, which
+# is not recorded; cachefault: a failing cache read is not an event of the model; sharedissuer: two submitters of one new issuer reach the pool in either order, which
 # the model's atomic EvSubmit cannot express; rcparallel: the real recompute-cache process runs concurrently with a round), only
 # the property monitors count. Value = histories per job.
-PROBES = {"tamperfull": 2, "storm": 6, "rcparallel": 1, "sharedissuer": 8}
+PROBES = {"tamperfull": 2, "storm": 6, "rcparallel": 1, "sharedissuer": 8, "cachefault": 6}
 
 
 def run_harness(hexe, seed, n, scenario, out):
